@@ -9,7 +9,7 @@
   universally quantified in every theorem below.
 -/
 import EpModel.Lemmas.Ext
-namespace EpModel.C12
+namespace EpModel.Props.C12
 open EpModel EpModel.Ext EpModel.Spec.Ext
 
 /-! ## Ipv6Extensions -/
@@ -209,21 +209,28 @@ theorem v4_inconsistent_is_error (e : Exts4) (first : Nat) :
       · simp at hf
       · rename_i h; simp at hf; exact ⟨hf.symm, rfl, h⟩
 
-/-! ## ether type of the IP version -/
+/-- v4: `from_slice` never reaches the `unwrap()` in `to_header`. -/
+theorem v4_from_slice_never_panics (first : Nat) (slice : Bytes) :
+    Exts4.fromSlice first slice ≠ .error .panic := by
+  unfold Exts4.fromSlice
+  split
+  · split
+    · simp
+    · rename_i len hl
+      obtain ⟨a, ha⟩ := authToHeader_ok (ε := AuthSliceErr) _ _ hl
+      simp [ha]
+  · simp
 
-/-- version of an IP header set. -/
-def version : IpHdrs → Nat
-  | .ipv4 _ _ => 4
-  | .ipv6 _ _ => 6
+/-! ## ether type of the IP version -/
 
 /-- `IpHeaders::set_next_headers` and `NetHeaders::try_set_next_headers` report the ether type of
     the header's IP version (0x0800 / 0x86DD), store the first number of the chain in the IP
     header, and keep the version. -/
 theorem ether_type_of_version (h : IpHdrs) (n : Nat) :
-    some (h.setNextHeaders n).2 = etherTypeOfVersion (version h) ∧
-    version (h.setNextHeaders n).1 = version h ∧
+    some (h.setNextHeaders n).2 = etherTypeOfVersion h.version ∧
+    (h.setNextHeaders n).1.version = h.version ∧
     (NetHdrs.ip h).trySetNextHeaders n = .ok (.ip (h.setNextHeaders n).1, (h.setNextHeaders n).2) := by
-  cases h <;> simp [IpHdrs.setNextHeaders, NetHdrs.trySetNextHeaders, version, etherTypeOfVersion]
+  cases h <;> simp [IpHdrs.setNextHeaders, NetHdrs.trySetNextHeaders, IpHdrs.version, etherTypeOfVersion]
 
 /-- the chain stored by `IpHeaders::set_next_headers` walks to `n` (`IpHeaders::next_header`). -/
 theorem ip_link_then_walk (h : IpHdrs) (n : Nat) : (h.setNextHeaders n).1.nextHeader = .ok n := by
@@ -262,6 +269,18 @@ example : ∃ out, (sample.setNextHeaders 17).1.write (sample.setNextHeaders 17)
 /-- an inconsistent struct (fragment header never referenced) for `inconsistent_is_error` (2). -/
 example : ({ Exts.empty with fragment := some ⟨17, 0, false, 1⟩ } : Exts).hdr .fragment = some ⟨.fragment, 17, [17, 0, 0, 0, 0, 0, 0, 1]⟩ := by
   decide
+/-- … and the hypotheses of `inconsistent_is_error` (2) hold for it with first number 17: the
+    fragment header's number 44 is neither the first number nor any stored `next_header`. -/
+def fragOnly : Exts := { Exts.empty with fragment := some ⟨17, 0, false, 1⟩ }
+example : ∀ k' hd', fragOnly.hdr k' = some hd' → hd'.next ≠ Kind.fragment.ipNumber := by
+  intro k' hd' h
+  cases k' <;> simp [fragOnly, Exts.hdr, Exts.empty, Exts.finalDest] at h
+  subst h; decide
+example : ∃ w, fragOnly.nextHeader 17 = .error (.err w) ∧ (fragOnly.write 17).2 = .error (.err w) := by
+  refine (inconsistent_is_error fragOnly 17).2 .fragment ⟨.fragment, 17, [17, 0, 0, 0, 0, 0, 0, 1]⟩ (by decide) (by decide) ?_
+  intro k' hd' h
+  cases k' <;> simp [fragOnly, Exts.hdr, Exts.empty, Exts.finalDest] at h
+  subst h; decide
 example : (Exts4.mk (some ⟨6, 1, 2, []⟩)).WF := by decide
 
-end EpModel.C12
+end EpModel.Props.C12
